@@ -97,6 +97,11 @@ impl<CS: CLCiphersuite> Signature<CL03<CS>> {
     pub fn verify(&self, pk: &CL03PublicKey, a_bases: &Bases, message: &CL03Message) -> bool {
         let sign = self.cl03Signature();
 
+        // attributes are lm-bit non-negative integers: (v * a^k, m + k * e) satisfies the equation for every k
+        if message.value < 0 || message.value >= Integer::from(2).pow(CS::lm) {
+            return false;
+        }
+
         let lhs = Integer::from(sign.v.pow_mod_ref(&sign.e, &pk.N).unwrap());
 
         let rhs = (Integer::from(a_bases.0[0].pow_mod_ref(&message.value, &pk.N).unwrap())
@@ -126,6 +131,12 @@ impl<CS: CLCiphersuite> Signature<CL03<CS>> {
         }
 
         let sign = self.cl03Signature();
+
+        // attributes are lm-bit non-negative integers: (v * a_i^k, m_i + k * e) satisfies the equation for every k
+        let max_m = Integer::from(2).pow(CS::lm);
+        if messages.iter().any(|m| m.value < 0 || m.value >= max_m) {
+            return false;
+        }
 
         let lhs = Integer::from(sign.v.pow_mod_ref(&sign.e, &pk.N).unwrap());
 
